@@ -100,8 +100,16 @@ def check_partial(case, ev):
         # property speaks about every (model, interpretation) pair, whatever the object was asked earlier; the declared
         # bounds used by the oracle were read off the fresh object above
         total = {i: (lv[i][0] if (j + len(ids)) % 2 else lv[i][1]) for j, i in enumerate(ids)}
+        # interval entries given as Bounds objects: the caller's objects were first used with the full declared range or with the
+        # lower end only and are then updated in place to the interval under test (Bounds is a plain mutable dataclass)
+        reused = {i: (puan.Bounds(lv[i][0], lv[i][1]) if (j + len(ids)) % 2 else puan.Bounds(int(v.lower), int(v.lower)))
+                  for j, (i, v) in enumerate(sorted(interp.items())) if isinstance(v, puan.Bounds)}
+        total.update(reused)
         call(m.evaluate, total, what="evaluate (earlier query)")
         call(m.assume, {ids[0]: total[ids[0]]}, what="assume (earlier query)")
+        for i, r in reused.items():
+            r.lower, r.upper = int(interp[i].lower), int(interp[i].upper)
+            interp[i] = r
         ev.count("objects_queried_before")
     res = call(m.evaluate_propositions, dict(interp), what="evaluate_propositions")
     top = oracle.bounds_tuple(call(m.evaluate, dict(interp), what="evaluate"))
